@@ -141,7 +141,7 @@ func (ch *Channel) NewStream(ctx context.Context, desc *grpc.StreamDesc, methodN
 
 	// Intercept r.Close() so we can control the error sent across to the writer thread.
 	r, w := io.Pipe()
-	req, err := http.NewRequest("POST", reqUrlStr, ioutil.NopCloser(r))
+	req, err := http.NewRequest("POST", reqUrlStr, requestBody{r, ctx})
 	if err != nil {
 		cancel()
 		return nil, err
@@ -158,6 +158,26 @@ func (ch *Channel) NewStream(ctx context.Context, desc *grpc.StreamDesc, methodN
 	runtime.SetFinalizer(ret, func(*clientStreamWrapper) { cancel() })
 
 	return ret, nil
+}
+
+// requestBody is the read side of the pipe that carries the request messages
+// to the transport. The transport closes it when it will read no more: after
+// the end of the request, but also early, when the connection is lost or the
+// round trip is abandoned while messages are still being sent. From then on
+// nothing reads the pipe, so a sender must not be left waiting for a reader:
+// it gets the context's status if the RPC was cancelled or timed out, and
+// io.EOF otherwise (the stream is over; RecvMsg tells why).
+type requestBody struct {
+	*io.PipeReader
+	ctx context.Context
+}
+
+func (b requestBody) Close() error {
+	err := io.EOF
+	if ctxErr := b.ctx.Err(); ctxErr != nil {
+		err = statusFromContextError(ctxErr)
+	}
+	return b.PipeReader.CloseWithError(err)
 }
 
 type clientStreamWrapper struct {
@@ -480,8 +500,9 @@ func (cs *clientStream) doHttpCall(transport http.RoundTripper, req *http.Reques
 
 	// If the RPC is cancelled or times out while the transport is still
 	// reading the request body from the pipe, nothing else would unblock
-	// that read (the body's Close is intercepted, see NewStream) and the
-	// transport waits for it before RoundTrip returns. So end it here.
+	// that read (a transport need not close the body while it is reading
+	// it) and the transport waits for it before RoundTrip returns. So end it
+	// here.
 	stop := make(chan struct{})
 	defer close(stop)
 	go func() {
